@@ -140,3 +140,37 @@ theorem SourceTie_C02 (ops : List Op) (b : B) (hok : HistOk b ops) :
   obtain ⟨_, h2⟩ := MotionTie_run ops b hok
   rw [← h2, ← safeSeq_view]
   exact (C02_run_safe ops b).1
+
+open GscribModel.MotionTie in
+/-- **C01 from a new builder**: construct a builder as the translated constructors do (`MotionTie_init`), run any history on the
+    translated source, feed what it wrote to a machine just powered on (position unknown, absolute mode): the machine ends,
+    on every axis it knows, where the builder says it is, in the mode the builder reports. -/
+theorem SourceTie_C01_new (ops : List Op) (hok : HistOk {} ops) :
+    let g := srcRun GCodeBuilder.init.1 [] ops
+    GCodeBuilder.init.2 = none ∧ SAgree g.1 ((g.2.map conv).foldl lineExec {}) := by
+  have hi := MotionTie_init
+  refine ⟨by rw [hi], ?_⟩
+  have hag : Agree ({} : B) ({} : Machine) := ⟨rfl, rfl, by intro a q h; cases a <;> cases h⟩
+  have := SourceTie_C01 ops {} {} hok hag
+  rw [hi]
+  exact this
+
+open GscribModel.MotionTie in
+/-- **C02 from a new builder**: the program any history writes from a newly constructed builder is safe statement by statement
+    for a controller whose tool and coolant are off at the start. -/
+theorem SourceTie_C02_new (ops : List Op) (hok : HistOk {} ops) :
+    lineSafeSeq ⟨false, false⟩ ((srcRun GCodeBuilder.init.1 [] ops).2.map conv) = true := by
+  rw [MotionTie_init]
+  exact SourceTie_C02 ops {} hok
+
+open GscribModel.MotionTie in
+/-- non-vacuity of the `_new` corollaries: a history from a new builder that meets `HistOk` (zero the axes, a relative-mode
+    block with a move, coolant on, leave the block, emergency stop) -/
+example : HistOk {} [.setAxis (VPt.ofPt ⟨some 0, some 0, some 0⟩) [], .enterCtx true, .move false (VPt.ofPt ⟨some 1, none, none⟩) [] 0,
+    .coolOn .flood, .exitCtx, .ehalt false] := by
+  refine ⟨⟨_, rfl⟩, trivial, ⟨⟨_, rfl⟩, ?_⟩, trivial, trivial, trivial, trivial⟩
+  intro ws h
+  cases h
+  refine ⟨?_, ?_⟩
+  · intro f hf; cases hf
+  · intro s hs; cases hs
